@@ -69,8 +69,11 @@ CHECKS['C19'] = dict(
          '(segment_line_escaped, messages_escaped), one segment line per reader segment in order (every_segment_once_in_order). Tied to '
          '/repo by generated documents with faults, markup characters in data, odd segment ids and exotic delimiters: the real HTML is '
          'tokenised, compared line by line with the model, and every error of the captured error tree must appear next to its segment. '
-         'Completeness of the err_iter cursor is decided by that oracle, not proved (known findings listed).',
-    note=COMMON_NOTE + ' PARTIAL: which errors reach gen_seg (the err_iter cursor) is checked on the real code only.',
+         'The err_iter cursor, the per-segment drain loop and the get_error_list filters are modelled too (Model/ErrIter.lean): shown_iff_reachable '
+         'characterises exactly which stored errors are shown, every known-finding class has a not-reachable lemma with a kernel-checked '
+         'witness, body_segment_errors_shown covers the ordinary case, and all_errors_shown_full is proved false; the model\'s report is '
+         'compared token by token with the real HTML on every document.',
+    note=COMMON_NOTE + ' The err_handler call history fed to the cursor model is captured from the real run.',
     technique='Lean 4 proof (escaping, strip/unescape recovery, one line per segment) + HTML tokeniser oracle and model differential',
     design='DESIGN.md §3 C19')
 CHECKS['C18'] = dict(
@@ -226,7 +229,9 @@ CHECKS['C09'] = dict(
 CHECKS['C07'] = dict(
     text='Lean theorem pipeline_total (PARTIAL): the composed model readAndCheck (tokenise with any read-size oracle -> envelope bookkeeping -> '
          'per-segment element and syntax validation over an abstract matched-node oracle with well-formed nodes) never reaches a crash outcome, '
-         'and its outcome is a verdict or one of the documented refusals (pipeline_outcomes, reader_total); it assembles the totality theorems '
+         'and its outcome is a verdict or one of the documented refusals (pipeline_outcomes, reader_total); doc_total / doc_total_sharp prove '
+         'the same for the END-TO-END model validateDoc (real walker model, error tree, acknowledgement): the only reachable crash outcomes '
+         'are the three err_handler call sites listed as findings (plus map inconsistencies the translator excludes); it assembles the theorems '
          'of C01, C04, C13, C14, C15. NOT in the composition and therefore decided only by the fuzz: the walker-to-validation glue and map '
          'switching, the error tree, the 997/999 visitors, the HTML and XML sinks, logging, the context reader\'s tree building. Tied to /repo '
          'by a structural mutation fuzz (22 maps x 49 mutation kinds + arbitrary strings x sink subsets x charsets) through x12n_document, '
